@@ -18,8 +18,8 @@ PROPS = {
 }
 
 KV_T1 = [
-    {"family": "kv", "model": "kv", "quick_n": 40000, "thorough_n": 1500000, "corpus": "kv"},
-    {"family": "kv", "model": "kv", "profile": "iavl", "quick_n": 15000, "thorough_n": 500000, "corpus": "kv"},
+    {"family": "kv", "model": "kv", "quick_n": 40000, "thorough_n": 1500000, "corpus": "kv", "reset_token": "new"},
+    {"family": "kv", "model": "kv", "profile": "iavl", "quick_n": 15000, "thorough_n": 500000, "corpus": "kv", "reset_token": "new"},
 ]
 KV_RULE = ("programs over stacks of real wrappers (cachekv / prefix / gaskv / tracekv, depth <= 7) on a MemDB or IAVL base; keys over "
            "{00,01,ff}^<=3 (+ random bytes) so that keys are prefixes of each other; iterators opened, stepped, written under and resumed; "
@@ -60,7 +60,7 @@ PROPS["C15"] = {
 # development-only entry: the chain family with all monitors, no Lean module (not in MANIFEST)
 PROPS["XCHAIN"] = {
     "lean_modules": [], "namespaces": [],
-    "t1": [{"family": "chain", "model": None, "quick_n": 4000, "thorough_n": 200000}],
+    "t1": [{"family": "chain", "model": None, "quick_n": 4000, "thorough_n": 200000, "reset_token": "init", "group_token": "begin"}],
 }
 
 # Properties not claimed, with the reason (kept current; see DESIGN.md).
